@@ -204,6 +204,35 @@ func init() {
 		}
 		return w.ret(r, err)
 	}
+	// stack:<t>:<axis>:<others>  concat:<t>:<axis>:<others>  repeat:<t>:<axis>:<reps>
+	progOps["stack"] = func(w *world, f []string) string {
+		var os []tensor.Tensor
+		for _, i := range ints(f[3]) {
+			os = append(os, w.ts[i])
+		}
+		r, err := tensor.Stack(atoi(f[2]), w.ts[atoi(f[1])], os...)
+		if len(os) == 0 && err == nil { // tensor.Stack returns the operand itself; use the method
+			var d *tensor.Dense
+			d, err = w.ts[atoi(f[1])].Stack(atoi(f[2]))
+			r = d
+		}
+		return w.ret(r, err)
+	}
+	progOps["concat"] = func(w *world, f []string) string {
+		var os []*tensor.Dense
+		for _, i := range ints(f[3]) {
+			os = append(os, w.ts[i])
+		}
+		r, err := w.ts[atoi(f[1])].Concat(atoi(f[2]), os...)
+		if err != nil {
+			return "err"
+		}
+		return w.newOrSame(r)
+	}
+	progOps["repeat"] = func(w *world, f []string) string {
+		r, err := tensor.Repeat(w.ts[atoi(f[1])], atoi(f[2]), ints(f[3])...)
+		return w.ret(r, err)
+	}
 	// un:<op>:<a>:<mode>
 	progOps["un"] = func(w *world, f []string) string {
 		a := w.ts[atoi(f[2])]
